@@ -574,8 +574,8 @@ def prov9(ctx, pid):
         ctx.bad("pack:nibbles_to_bytes", f.loc(), "nibbles_to_bytes does not pack every pair through the reverse table")
     # bytes_to_nibbles
     g = ctx.P.func(NIB + "_bytes_to_nibbles")
-    src = ast.unparse(g.node).replace(" ", "")
-    if "yieldfromNIBBLES_LOOKUPS[byte]" in src and "forbytein%s:" % g.params[0] in src:
+    src = util.alpha_src(g)
+    if "yieldfromNIBBLES_LOOKUPS[v0]" in src and "forv0in%s:" % g.params[0] in src:
         ctx.ok("unpack:_bytes_to_nibbles", g.loc(), "every byte yields its two nibbles from the forward table", nontrivial=False)
     else:
         ctx.bad("unpack:_bytes_to_nibbles", g.loc(), "_bytes_to_nibbles does not yield NIBBLES_LOOKUPS[byte] for every byte")
@@ -593,14 +593,14 @@ def sib7b(ctx, pid):
     # ---- bit order of encode_to_bin / decode_from_bin
     exp_node = cm.const_nodes.get("EXP")
     exp_src = ast.unparse(exp_node).replace(" ", "") if exp_node is not None else ""
-    msb_first = exp_src in ("tuple(reversed(tuple((2**iforiinrange(8)))))", "tuple(reversed(tuple(2**iforiinrange(8))))",
+    msb_first = ctx.P.const(cm, "EXP") == (128, 64, 32, 16, 8, 4, 2, 1) or exp_src in ("tuple(reversed(tuple((2**iforiinrange(8)))))", "tuple(reversed(tuple(2**iforiinrange(8))))",
                             "(128,64,32,16,8,4,2,1)", "tuple(2**iforiinrange(7,-1,-1))")
     f = ctx.P.func(B + "encode_to_bin")
-    src = ast.unparse(f.node).replace(" ", "")
-    writer_ok = "forcharin%s:" % f.params[0] in src and "forexpinEXP:" in src and "ifchar&exp:" in src and "yieldTrue" in src and "yieldFalse" in src
+    src = util.alpha_src(f)
+    writer_ok = "forv0in%s:" % f.params[0] in src and "forv1inEXP:" in src and ("ifv0&v1:" in src or "ifv1&v0:" in src) and "yieldTrue" in src and "yieldFalse" in src
     g = ctx.P.func(B + "decode_from_bin")
-    gsrc = ast.unparse(g.node).replace(" ", "")
-    reader_ok = "partition_all(8,%s)" % g.params[0] in gsrc and "sum((2**exp*bitfor(exp,bit)inenumerate(reversed(chunk))))" in gsrc.replace("forexp,bitin", "for(exp,bit)in")
+    gsrc = util.alpha_src(g)
+    reader_ok = "partition_all(8,%s)" % g.params[0] in gsrc and "sum((2**v1*v2for(v1,v2)inenumerate(reversed(v0))))" in gsrc.replace("forv1,v2in", "for(v1,v2)in")
     c = "bit-order:encode_to_bin/decode_from_bin"
     if msb_first and writer_ok and reader_ok:
         ctx.ok(c, f.loc(), "writer emits bits for weights 128..1 in that order; reader weights the reversed 8-chunk by 2**index: both MSB first")
